@@ -258,6 +258,29 @@ def window_ok(ex, response, sensors):
     return True
 
 
+def map_response_result(ex, response, sensors):
+    """result of _map_response under contract: arbitrary values, except for the ids a scenario focuses on, whose real
+    rows are executed on the response (a ValueError becomes None exactly as in the real body)"""
+    g = ghost(ex)
+    focus = getattr(g, "focus_ids", ())
+    out = {}
+    for s in sensors:
+        if s.id_ in focus:
+            saved = ex.contracts
+            ex.contracts = {k: v for k, v in saved.items() if not k.endswith(".read")}
+            try:
+                out[s.id_] = ex.call(s.read, [response], {})
+            except PyRaise as pr:
+                if not isinstance(pr.exc, ValueError):
+                    raise
+                out[s.id_] = None
+            finally:
+                ex.contracts = saved
+        else:
+            out[s.id_] = ex.fresh_any("val_" + s.id_)
+    return out
+
+
 def install_hooks():
     import contracts.inverter as ci
     ci.window_ok._pyvc_sym = window_ok
@@ -753,3 +776,377 @@ def entrypoint(ex, which):
                  detail=f"{type(p).__name__}: timeout={p.timeout} retries={p.retries}")
     ex.check("C05_some_request_was_made", bool(g.protocols))
     only_reads(ex)
+
+
+# ---- assumed inverter model for C17 / C19 (E1, E2): a register file behind the transport ---------------------------------------
+class RegFile:
+    """E1: a validated read answer carries the current contents; an accepted write stores exactly the bytes written;
+    nothing else changes registers.  E2 (ES only): AA55 command 0359 01 mm sets the work-mode word of the settings
+    block (offset 66), 0335 02 xxxx the export limit (offset 52), register 0x560 the word reported as dod (offset 32).
+    The operation is decoded from the *request bytes*, i.e. by what actually goes on the wire."""
+
+    def __init__(self, ex):
+        self.mem = ex.fresh_arr("mem")          # modbus register -> 16 bit word
+        self.aa = ex.fresh_arr("aa55mem")       # AA55 register space of the ES family
+        self.blob = ex.fresh_arr("settings")    # ES settings block (AA55 0109), byte addressed
+        self.mem0, self.aa0, self.blob0 = self.mem, self.aa, self.blob
+        self.log = []                           # ('read'|'write', space, addr, nregs, data)
+        self.refuse_nothing = True
+
+    def may_refuse(self, ex, command, kind):
+        return False
+
+    def _word(self, ex, arr, addr):
+        t = z3.simplify(z3.Select(arr, addr))
+        ex.fact(z3.And(t >= 0, t <= 65535))
+        return t
+
+    def _payload_from(self, ex, arr, addr, count):
+        els = []
+        for i in range(count):
+            w = self._word(ex, arr, zt(addr) + i)
+            els.append(mk_int(w / 256))
+            els.append(mk_int(w % 256))
+        return SBytes([ESeg(els)])
+
+    def _store_bytes(self, ex, arr, addr, data):
+        n = data.length()
+        if not isinstance(n, int) or n % 2:
+            raise Unsupported("register write of odd or symbolic length")
+        for i in range(n // 2):
+            w = iterm(data.elem_at(ex, 2 * i)) * 256 + iterm(data.elem_at(ex, 2 * i + 1))
+            arr = z3.Store(arr, zt(addr) + i, w)
+        return arr
+
+    def answer(self, ex, inv, command, kind):
+        from goodwe.protocol import (Aa55ProtocolCommand, ModbusRtuProtocolCommand, ModbusTcpProtocolCommand)
+        r = SBytes.of(command.request)
+        g = ghost(ex)
+
+        def b(i):
+            v = r.elem_at(ex, i)
+            return v if isinstance(v, int) else wrapc(ex, iterm(v))
+
+        def be16(i):
+            return wrapc(ex, iterm(b(i)) * 256 + iterm(b(i + 1)))
+
+        if isinstance(command, (ModbusRtuProtocolCommand, ModbusTcpProtocolCommand)):
+            o = 0 if isinstance(command, ModbusRtuProtocolCommand) else 6
+            fn = b(o + 1)
+            addr = be16(o + 2)
+            if not isinstance(fn, int):
+                raise Unsupported("symbolic function code")
+            if fn == 3:
+                count = be16(o + 4)
+                if not isinstance(count, int):
+                    raise Unsupported("symbolic register count")
+                payload = self._payload_from(ex, self.mem, addr, count)
+                self.log.append(("read", "modbus", addr, count, None))
+            elif fn == 6:
+                data = r.slice(ex, o + 4, o + 6)
+                self.mem = self._store_bytes(ex, self.mem, addr, data)
+                self.log.append(("write", "modbus", addr, 1, data))
+                payload = SBytes.fresh(ex, "echo", 4)
+            elif fn == 16:
+                n = b(o + 6)
+                if not isinstance(n, int):
+                    raise Unsupported("symbolic byte count")
+                data = r.slice(ex, o + 7, o + 7 + n)
+                self.mem = self._store_bytes(ex, self.mem, addr, data)
+                self.log.append(("write", "modbus", addr, n // 2, data))
+                payload = SBytes.fresh(ex, "echo", 4)
+            else:
+                raise Unsupported(f"function code {fn}")
+        elif isinstance(command, Aa55ProtocolCommand):
+            ctrl, func = b(4), b(5)
+            if (ctrl, func) == (1, 0x1A):
+                addr, count = be16(7), b(9)
+                payload = self._payload_from(ex, self.aa, addr, count)
+                self.log.append(("read", "aa55", addr, count, None))
+            elif (ctrl, func) == (2, 0x39):
+                addr = be16(7)
+                n = b(9)
+                if b(6) == 5:
+                    data = r.slice(ex, 10, 12)
+                else:
+                    data = r.slice(ex, 10, 10 + n)
+                if isinstance(addr, int) and addr == 0x560:
+                    self.blob = z3.Store(z3.Store(self.blob, 32, iterm(data.elem_at(ex, 0))), 33,
+                                         iterm(data.elem_at(ex, 1)))
+                else:
+                    self.aa = self._store_bytes(ex, self.aa, addr, data)
+                self.log.append(("write", "aa55", addr, data.length() // 2, data))
+                payload = SBytes.fresh(ex, "echo", 1)
+            elif (ctrl, func) == (1, 9):
+                n = 100
+                payload = SBytes([ASeg(self.blob, 0, n)])
+                self.log.append(("read", "settings", 0, n, None))
+            elif ctrl == 1:
+                payload = SBytes.fresh(ex, "payload", payload_length(ex, command))
+                self.log.append(("read", "other", 0, 0, None))
+            elif (ctrl, func) == (3, 0x59):
+                self.blob = z3.Store(z3.Store(self.blob, 66, z3.IntVal(0)), 67, iterm(b(7)))
+                self.log.append(("write", "work_mode", 66, 1, r.slice(ex, 7, 8)))
+                payload = SBytes.fresh(ex, "echo", 1)
+            elif (ctrl, func) == (3, 0x35):
+                self.blob = z3.Store(z3.Store(self.blob, 52, iterm(b(7))), 53, iterm(b(8)))
+                self.log.append(("write", "export_limit", 52, 1, r.slice(ex, 7, 9)))
+                payload = SBytes.fresh(ex, "echo", 1)
+            else:
+                self.log.append(("write", "other", (ctrl, func), 0, None))
+                payload = SBytes.fresh(ex, "echo", 1)
+        else:
+            raise Unsupported("command type")
+        g.script.append({"kind": "return", "payload": payload})
+        return make_response(ex, command, payload)
+
+
+def wrapc(ex, t):
+    """value of a term: python int when the path condition fixes it (e.g. through a callee post-condition)"""
+    c = ex.concretize(t)
+    return c if isinstance(c, int) else mk_int(c)
+
+
+def setting_value_kind(s):
+    cls = type(s).__name__
+    if cls in ("Integer", "IntegerS", "Long", "LongS", "ByteH", "ByteL"):
+        return "int"
+    if cls in ("Voltage", "Current", "CurrentS", "Decimal"):
+        return "float"
+    if cls in ("EcoModeV1", "EcoModeV2", "Schedule", "PeakShavingMode"):
+        return "bytes"
+    if cls == "Timestamp":
+        return "datetime"
+    return None
+
+
+def setting_rows(family):
+    import contracts.sensor as cs
+    out = []
+    for tn, rows in sorted(cs.sensor_tables().items()):
+        if tn.startswith(family + ".") and "settings" in tn:
+            for r in rows:
+                out.append((tn, r))
+    return out
+
+
+def write_setting_row(ex, family, index, port=8899):
+    """C17 for one settings row: write_setting(id, v) against the register-file model, for every prior content and
+    every encodable v: exactly one write, addressed to the row's registers, carrying encode_value(v); every other
+    register keeps its value; read_setting(id) then decodes exactly what was written"""
+    install_hooks()
+    ex.contracts = {k: v for k, v in ex.contracts.items() if not k.endswith(".read")}
+    tn, s = setting_rows(family)[index]
+    cls = type(s).__name__
+    ex.unit = f"write:{tn}/{s.id_}[{cls}]@{port}"
+    kind = setting_value_kind(s)
+    if kind is None:
+        return
+    inv = new_inverter(ex, family, port)
+    ex.new_object(inv)
+    ex.new_object(inv._settings)
+    inv._settings[s.id_] = s
+    ex.setattr(inv, "serial_number", ex.fresh_str("serial"))
+    g = ghost(ex)
+    g.consistent_refusal = False
+    g.regs = RegFile(ex)
+    regs = g.regs
+    if kind == "int":
+        v = ex.fresh_int("value")
+    elif kind == "float":
+        v = ex.fresh_float("value")
+    elif kind == "bytes":
+        v = SBytes.fresh(ex, "value", s.size_)
+    else:
+        y = [ex.fresh_int(n) for n in ("year", "month", "day", "hour", "minute", "second")]
+        ex.assume(mk_bool(z3.And(y[0].t >= 2000, y[0].t <= 2255, y[1].t >= 1, y[1].t <= 12, y[2].t >= 1, y[2].t <= 31,
+                                 y[3].t >= 0, y[3].t <= 23, y[4].t >= 0, y[4].t <= 59, y[5].t >= 0, y[5].t <= 59)))
+        ex.assume(mk_bool(models.DT_VALID(*([t.t for t in y] + [z3.IntVal(0)]))))     # v is an existing datetime
+        v = models.SDatetime(tuple(y) + (0,))
+    ex.inputs = {"family": family, "id": s.id_, "value": v, "table": tn}
+    raised = None
+    try:
+        run_coro(ex, inv.write_setting, s.id_, v)
+    except PyRaise as pr:
+        raised = pr.exc
+    writes = [e for e in regs.log if e[0] == "write"]
+    reads = [e for e in regs.log if e[0] == "read"]
+    if raised is not None:
+        # a value outside the encodable domain: nothing may have been written
+        ex.check("C17_no_write_when_encoding_fails", not writes, detail=repr(raised)[:120])
+        return
+    ex.check("C17_exactly_one_write", len(writes) == 1, detail=f"{len(writes)} writes, {len(reads)} reads")
+    if len(writes) != 1:
+        return
+    nregs = (s.size_ + 1) // 2
+    op, space, addr, n, data = writes[0]
+    ex.check("C17_write_addresses_exactly_own_registers",
+             conj_eq(ex, addr, s.offset) if True else True, detail=f"write at {addr}, {n} register(s)")
+    ex.check("C17_write_covers_exactly_own_registers", n == nregs, detail=f"{n} != {nregs}")
+    # what was written is the encoding of v (for one-byte settings: merged with the other half of the register)
+    if s.size_ == 1:
+        ex.check("C17_prior_read_of_own_register_only", all(conj_is(e[2], s.offset) and e[3] == 1 for e in reads))
+        arr0 = regs.mem0 if space == "modbus" else regs.aa0
+        old = regs._word(ex, arr0, z3.IntVal(s.offset))
+        other = 1 if cls == "ByteH" else 0
+        keep = (old % 256) if other == 1 else (old / 256)
+        ex.check("C17_other_half_of_shared_register_kept", mk_bool(iterm(data.elem_at(ex, other)) == keep))
+        ex.check("C17_written_byte_is_value",
+                 mk_bool(iterm(data.elem_at(ex, 1 - other)) == z3.If(iterm(v) < 0, iterm(v) + 256, iterm(v))))
+    else:
+        ex.check("C17_no_read_needed", not reads)
+        enc = ex.call(s.encode_value, [v], {})
+        from .models import bytes_eq
+        eq = bytes_eq(ex, SBytes.of(enc), data)
+        ex.check("C17_written_bytes_are_encode_value", eq if isinstance(eq, bool) else mk_bool(eq))
+    # read back through the same model (ES: only the eco-mode groups are read from registers, C17 "can read back")
+    if family == "ES" and s.id_ not in ("eco_mode_1", "eco_mode_2", "eco_mode_3", "eco_mode_4"):
+        return
+    if kind == "bytes":
+        return      # encode_value(bytes) is the identity on valid groups; covered by written_bytes_are_encode_value
+    try:
+        back = run_coro(ex, inv.read_setting, s.id_)
+    except PyRaise as pr:
+        ex.check("C17_written_value_reads_back", False, detail=f"read_setting raised {pr.exc!r}"[:150])
+        return
+    if kind == "int":
+        # 0xFFFF / 0xFFFFFFFF is the 'no value' sentinel of the unsigned decoders: separate obligation
+        sentinel = {"Integer": 0xFFFF, "Long": 0xFFFFFFFF}.get(cls)
+        if sentinel is not None and ex.branch(iterm(v) == sentinel, tag="sentinel"):
+            ex.check("C17_sentinel_value_reads_back", ex.compare(ast.Eq(), back, v))
+        else:
+            ex.check("C17_written_value_reads_back", ex.compare(ast.Eq(), back, v))
+    elif kind == "datetime":
+        ex.check("C17_written_value_reads_back", ex.compare(ast.Eq(), back, v))
+    # floats: the class round trip is an exhaustive native obligation (encode(decode(w)) == w for all 65536 words)
+
+
+def conj_eq(ex, a, b):
+    r = ex.compare(ast.Eq(), a, b)
+    return r
+
+
+def conj_is(a, b):
+    return isinstance(a, int) and a == b
+
+
+# ---- C19: setters round-trip with their getters against the register-file model ----------------------------------------------
+def _c19_inverter(ex, family, fw2, p745):
+    inv = new_inverter(ex, family)
+    ex.new_object(inv)
+    ex.new_object(inv._settings)
+    serial = ex.fresh_str("serial")
+    ex.setattr(inv, "serial_number", serial)
+    # platform predicate: decided by the serial number; fixed here through the tag facts the model predicates consult
+    from goodwe import model
+    for tag in model.PLATFORM_745_LV_MODELS + model.PLATFORM_745_HV_MODELS:
+        ex.str_facts[('substr', tag, serial.key)] = ex.fresh_bool("tag")
+        ex.assume(mk_bool(ex.str_facts[('substr', tag, serial.key)].t == z3.BoolVal(bool(p745) and tag == "ETT")))
+    if family == "ET":
+        if fw2:
+            inv._settings.update({s.id_: s for s in type(inv)._ET__settings_arm_fw_19})
+        else:
+            ex.setattr(inv, "_has_eco_mode_v2", False)
+    else:
+        if fw2:
+            inv._settings.update({s.id_: s for s in type(inv)._ES__settings_arm_fw_14})
+        ex.setattr(inv, "arm_version", 14 if fw2 else ex.fresh_int("arm_version"))
+        ex.setattr(inv, "dsp1_version", ex.fresh_int("dsp1_version"))
+    return inv
+
+
+def operation_mode_roundtrip(ex, family, fw2, p745, mode_index):
+    """set_operation_mode(m, power, soc) then get_operation_mode() == m, for any prior register contents"""
+    from goodwe.inverter import OperationMode
+    install_hooks()
+    ex.contracts = {k: v for k, v in ex.contracts.items() if not k.endswith(".read")}
+    inv = _c19_inverter(ex, family, fw2, p745)
+    g = ghost(ex)
+    g.consistent_refusal = False
+    g.regs = RegFile(ex)
+    g.focus_ids = ("work_mode",)
+    modes = run_coro(ex, inv.get_operation_modes, True)
+    if mode_index >= len(modes):
+        return
+    m = modes[mode_index]
+    ex.unit = f"opmode:{family}{'.v2' if fw2 else '.v1'}{'.745' if p745 else ''}/{m.name}"
+    p = ex.fresh_int("power")
+    s = ex.fresh_int("soc")
+    ex.assume(mk_bool(z3.And(p.t >= 1, p.t <= 100, s.t >= 0, s.t <= 100)))
+    ex.inputs = {"family": family, "fw2": fw2, "p745": p745, "mode": int(m), "power": p, "soc": s,
+                 "prior": SBytes([ASeg(g.regs.mem0, 47515 if not fw2 else 47547, 16)])}
+    # quantifier of C19: prior contents of the eco-mode registers of *all schedule types*, i.e. any decodable group
+    eco0 = inv._settings.get("eco_mode_1")
+    if eco0 is not None:
+        n0 = eco0.size_
+        space = g.regs.mem0 if (family == "ET" or eco0.offset > 30000) else g.regs.aa0
+        prior_bytes = g.regs._payload_from(ex, space, eco0.offset, n0 // 2)
+        from .sensor_harness import make_response as mkresp
+        try:
+            ex.call(eco0.read_value, [mkresp(ex, prior_bytes, "plain", 0)], {})
+        except PyRaise as pr:
+            if isinstance(pr.exc, ValueError):
+                raise interp.Infeasible()
+            raise
+        ex.inputs["prior"] = prior_bytes
+    try:
+        run_coro(ex, inv.set_operation_mode, m, p, s)
+    except PyRaise as pr:
+        ex.check("C19_setter_succeeds_on_valid_arguments", False, detail=repr(pr.exc)[:200])
+        return
+    try:
+        got = run_coro(ex, inv.get_operation_mode)
+    except PyRaise as pr:
+        ex.check("C19_getter_returns_mode_that_was_set", False, detail=f"getter raised {pr.exc!r}"[:200])
+        return
+    if m == OperationMode.ECO:
+        # with group 1 already holding a 24/7 charge/discharge pattern the getter answers the emulated mode (finding)
+        ex.check("C19_getter_returns_mode_that_was_set__ECO",
+                 got is m or got in (OperationMode.ECO_CHARGE, OperationMode.ECO_DISCHARGE) and False,
+                 detail=f"set {m.name}, got {got}")
+    else:
+        ex.check("C19_getter_returns_mode_that_was_set", got is m, detail=f"set {m.name}, got {got}")
+    if m in (OperationMode.ECO_CHARGE, OperationMode.ECO_DISCHARGE):
+        eco = run_coro(ex, inv.read_setting, "eco_mode_1")
+        # raw power field == +-encode_power(p) of the group's schedule type (integers); that decode_power inverts
+        # encode_power on 1..100 is part of the exhaustive native grid (floats in the 745 scaling)
+        st = ex.call(eco.get_schedule_type, [], {})
+        enc = ex.call(st.encode_power, [p], {})
+        want = mk_int(-iterm(enc)) if m == OperationMode.ECO_CHARGE else enc
+        ex.check("C19_first_group_decodes_to_requested_power", ex.compare(ast.Eq(), eco.power, want),
+                 detail=f"{eco.power} vs {want}")
+        if m == OperationMode.ECO_CHARGE and fw2:
+            ex.check("C19_first_group_decodes_to_requested_soc", ex.compare(ast.Eq(), eco.soc, s))
+        for k in (2, 3, 4):
+            sw = run_coro(ex, inv.read_setting, f"eco_mode_{k}_switch") if family == "ET" else None
+            if sw is not None:
+                ex.check("C19_other_groups_switched_off", ex.compare(ast.Eq(), sw, 0), detail=f"group {k}")
+
+
+def limit_roundtrip(ex, family, which):
+    """set_grid_export_limit(x)/get..., set_ongrid_battery_dod(d)/get... return the value that was set"""
+    install_hooks()
+    ex.contracts = {k: v for k, v in ex.contracts.items() if not k.endswith(".read")}
+    inv = _c19_inverter(ex, family, False, False)
+    variant = settings_variants(ex, inv, family) if family == "DT" else 0
+    g = ghost(ex)
+    g.consistent_refusal = False
+    g.regs = RegFile(ex)
+    g.focus_ids = ("grid_export_limit", "dod")
+    x = ex.fresh_int("x")
+    ex.inputs = {"family": family, "which": which, "x": x, "variant": variant}
+    if which == "export_limit":
+        ex.assume(mk_bool(z3.And(x.t >= 0, x.t <= 65534)))
+        setter, getter = inv.set_grid_export_limit, inv.get_grid_export_limit
+    else:
+        ex.assume(mk_bool(z3.And(x.t >= 0, x.t <= 100)))
+        setter, getter = inv.set_ongrid_battery_dod, inv.get_ongrid_battery_dod
+    try:
+        run_coro(ex, setter, x)
+        got = run_coro(ex, getter)
+    except PyRaise as pr:
+        from goodwe.exceptions import InverterError
+        unsupported = family == "DT" and which == "dod" and isinstance(pr.exc, InverterError)
+        ex.check("C19_limit_setter_getter_succeed", unsupported, detail=repr(pr.exc)[:200])
+        return
+    ex.check("C19_getter_returns_value_that_was_set", ex.compare(ast.Eq(), got, x), detail=f"{got}")
